@@ -57,15 +57,16 @@ func drawJob(r *rand.Rand, script string) job {
 }
 
 type runResult struct {
-	dir    string
-	calls  []mcall
-	acks   []ackLine
-	init   []initFile
-	red    *reducer
-	seq    []string
-	killed bool
-	exit   int
-	stderr string
+	dir      string
+	calls    []mcall
+	acks     []ackLine
+	init     []initFile
+	red      *reducer
+	seq      []string
+	inflight []string
+	killed   bool
+	exit     int
+	stderr   string
 }
 
 // runTraced executes the child under strace in a fresh run directory.
@@ -94,11 +95,11 @@ func runTraced(self, dir string, j job) (*runResult, error) {
 	} else if err != nil {
 		return nil, fmt.Errorf("strace: %w", err)
 	}
-	raw, seq, killed, err := parseStrace(tr)
+	raw, seq, inflight, killed, err := parseStrace(tr)
 	if err != nil {
 		return nil, err
 	}
-	res.seq, res.killed = seq, killed
+	res.seq, res.inflight, res.killed = seq, inflight, killed
 	for _, rc := range raw {
 		red.feed(rc, &res.acks)
 	}
@@ -221,12 +222,24 @@ func readAcks(dir string) []ackLine {
 }
 
 type killOutcome struct {
-	job    job
-	res    *runResult
-	viol   []ImplViolation
-	obs    Sx
-	query  Sx
-	nfiles int
+	job          job
+	res          *runResult
+	viol         []ImplViolation
+	obs          Sx
+	query        Sx
+	nfiles       int
+	undetermined int
+}
+
+func touchedInFlight(bodies []string, abs string) bool {
+	for _, b := range bodies {
+		for _, end := range []string{"\"", ">", " (deleted)>"} {
+			if strings.Contains(b, abs+end) {
+				return true
+			}
+		}
+	}
+	return false
 }
 
 // inspect checks the post-kill state of a run directory with the real code.
@@ -412,6 +425,12 @@ func modeKill(self, out string, n int, seed int64, kstep, points int, replay *jo
 		q, o := SxList{}, SxList{}
 		for _, rel := range rels {
 			p := seen[rel]
+			// a path named by a call that was in flight on another thread when the process
+			// died is not determined by the completed-call prefix: leave it out
+			if touchedInFlight(res.inflight, filepath.Join(res.dir, rel)) {
+				oc.undetermined++
+				continue
+			}
 			q = append(q, p.sx())
 			if fi, err := os.Stat(filepath.Join(res.dir, rel)); err == nil && !fi.IsDir() {
 				o = append(o, L(I(1), I(fi.Size())))
@@ -423,18 +442,19 @@ func modeKill(self, out string, n int, seed int64, kstep, points int, replay *jo
 		oc.query, oc.obs = q, o
 		oc.viol = append(oc.viol, inspect(self, jb, res)...)
 		outcomes[i] = oc
-		if len(oc.viol) == 0 {
+		if len(oc.viol) == 0 && os.Getenv("VERIF_CRASH_KEEP") == "" {
 			_ = os.RemoveAll(res.dir)
 			_ = os.Remove(res.dir + ".strace")
 		}
 	})
 	var viol []ImplViolation
 	var infos []traceInfo
-	killedN := 0
+	killedN, undet := 0, 0
 	for i, oc := range outcomes {
 		if errs[i] != nil {
 			return errs[i]
 		}
+		undet += oc.undetermined
 		viol = append(viol, oc.viol...)
 		if oc.res.killed {
 			killedN++
@@ -449,7 +469,7 @@ func modeKill(self, out string, n int, seed int64, kstep, points int, replay *jo
 		return err
 	}
 	st := cw.Stats()
-	st.Extra = map[string]any{"kill_points_run": len(jobs), "killed": killedN, "mutating_calls_per_script": kTotals, "kstep": kstep, "points": points}
+	st.Extra = map[string]any{"kill_points_run": len(jobs), "killed": killedN, "mutating_calls_per_script": kTotals, "kstep": kstep, "points": points, "paths_left_out_because_a_call_on_them_was_in_flight": undet}
 	st.ImplViolations = viol
 	if err := WriteJSON(filepath.Join(out, "traces.json"), infos); err != nil {
 		return err
